@@ -561,6 +561,504 @@ theorem segsOk_of_streamLex : ∀ (ws : List WTok) (prev : Option WTok) (pl : Op
         · have := hline hl.1 hl.2 w' rest' hr; omega
         · exact toSeg_last w hw hl
 
+/-! ## the scanner of `ends_in_line_comment` on the text of a lexable stream
+
+The writer's `ends_in_line_comment` (`lcScan`, Model/Tree.lean) is a second, much simpler tokenizer. On the text of a
+lexable stream it agrees with the real one: behind every token it is outside of strings and comments again, except
+behind a `//` comment, where it is inside the comment until the next line break. Proved on bytes (`lcScanB`), where the
+shapes of the tokens are known (`Seg.ok`). -/
+
+/-- the scanner on UTF-8 bytes -/
+def lcScanB : LcState → List UInt8 → LcState
+  | s, [] => s
+  | .outside, c :: rest =>
+    if c = 34 then lcScanB .inString rest
+    else if c = 47 then
+      match rest with
+      | [] => .outside
+      | d :: rest' =>
+        if d = 47 then lcScanB .lineComment rest'
+        else if d = 42 then lcScanB .blockComment rest'
+        else lcScanB .outside (d :: rest')
+    else lcScanB .outside rest
+  | .inString, c :: rest =>
+    if c = 92 then lcScanB .inStringEscaped rest
+    else if c = 34 then lcScanB .outside rest
+    else lcScanB .inString rest
+  | .inStringEscaped, _ :: rest => lcScanB .inString rest
+  | .lineComment, c :: rest => if c = 10 then lcScanB .outside rest else lcScanB .lineComment rest
+  | .blockComment, c :: rest => if c = 42 then lcScanB .blockCommentStar rest else lcScanB .blockComment rest
+  | .blockCommentStar, c :: rest =>
+    if c = 47 then lcScanB .outside rest
+    else if c = 42 then lcScanB .blockCommentStar rest
+    else lcScanB .blockComment rest
+
+theorem lcScanB_nil (s : LcState) : lcScanB s [] = s := by cases s <;> rfl
+
+theorem lcScanB_outside_quote (r : List UInt8) : lcScanB .outside (34 :: r) = lcScanB .inString r := by
+  rw [lcScanB.eq_def]; simp
+theorem lcScanB_outside_other (c : UInt8) (r : List UInt8) (h1 : c ≠ 34) (h2 : c ≠ 47) :
+    lcScanB .outside (c :: r) = lcScanB .outside r := by
+  rw [lcScanB.eq_def]; simp only [h1, h2, if_false]
+theorem lcScanB_outside_slash_nil : lcScanB .outside [47] = .outside := by
+  rw [lcScanB.eq_def]; simp
+theorem lcScanB_outside_slash_slash (r : List UInt8) : lcScanB .outside (47 :: 47 :: r) = lcScanB .lineComment r := by
+  rw [lcScanB.eq_def]; simp
+theorem lcScanB_outside_slash_star (r : List UInt8) : lcScanB .outside (47 :: 42 :: r) = lcScanB .blockComment r := by
+  rw [lcScanB.eq_def]; simp
+theorem lcScanB_outside_slash_other (d : UInt8) (r : List UInt8) (h1 : d ≠ 47) (h2 : d ≠ 42) :
+    lcScanB .outside (47 :: d :: r) = lcScanB .outside (d :: r) := by
+  rw [lcScanB.eq_def]; simp [h1, h2]
+theorem lcScanB_inString (c : UInt8) (r : List UInt8) : lcScanB .inString (c :: r) =
+    if c = 92 then lcScanB .inStringEscaped r else if c = 34 then lcScanB .outside r else lcScanB .inString r := by
+  rw [lcScanB.eq_def]
+theorem lcScanB_inStringEscaped (c : UInt8) (r : List UInt8) : lcScanB .inStringEscaped (c :: r) = lcScanB .inString r := by
+  rw [lcScanB.eq_def]
+theorem lcScanB_lineComment (c : UInt8) (r : List UInt8) : lcScanB .lineComment (c :: r) =
+    if c = 10 then lcScanB .outside r else lcScanB .lineComment r := by
+  rw [lcScanB.eq_def]
+theorem lcScanB_blockComment (c : UInt8) (r : List UInt8) : lcScanB .blockComment (c :: r) =
+    if c = 42 then lcScanB .blockCommentStar r else lcScanB .blockComment r := by
+  rw [lcScanB.eq_def]
+theorem lcScanB_blockCommentStar (c : UInt8) (r : List UInt8) : lcScanB .blockCommentStar (c :: r) =
+    if c = 47 then lcScanB .outside r else if c = 42 then lcScanB .blockCommentStar r else lcScanB .blockComment r := by
+  rw [lcScanB.eq_def]
+
+theorem lcScanB_other (s : LcState) (c : UInt8) (r : List UInt8) (h1 : c ≠ 34) (h2 : c ≠ 47) (h3 : c ≠ 42) (h4 : c ≠ 92)
+    (h5 : c ≠ 10) : lcScanB s (c :: r) = lcScanB s.other r := by
+  cases s
+  · exact lcScanB_outside_other c r h1 h2
+  · rw [lcScanB_inString, if_neg h4, if_neg h1]; rfl
+  · rw [lcScanB_inStringEscaped]; rfl
+  · rw [lcScanB_lineComment, if_neg h5]; rfl
+  · rw [lcScanB_blockComment, if_neg h3]; rfl
+  · rw [lcScanB_blockCommentStar, if_neg h2, if_neg h3]; rfl
+
+theorem LcState.other_idem (s : LcState) : s.other.other = s.other := by cases s <;> rfl
+
+/-- the bytes of a character that is not ASCII mean nothing to the scanner -/
+theorem lcScanB_high (s : LcState) (r : List UInt8) : ∀ (l : List UInt8), l ≠ [] → (∀ x ∈ l, 128 ≤ x) →
+    lcScanB s (l ++ r) = lcScanB s.other r
+  | [], h, _ => absurd rfl h
+  | x :: l, _, h => by
+    have hx : (128 : UInt8) ≤ x := h x List.mem_cons_self
+    have ne : ∀ (n : UInt8), n < 128 → x ≠ n := by
+      intro n hn hxn; subst hxn
+      exact absurd (UInt8.lt_of_lt_of_le hn hx) (UInt8.lt_irrefl _)
+    rw [List.cons_append, lcScanB_other s x _ (ne 34 (by decide)) (ne 47 (by decide)) (ne 42 (by decide))
+      (ne 92 (by decide)) (ne 10 (by decide))]
+    cases l with
+    | nil => rfl
+    | cons y l' =>
+      rw [lcScanB_high s.other r (y :: l') (List.cons_ne_nil _ _) (fun z hz => h z (List.mem_cons_of_mem _ hz)),
+        LcState.other_idem]
+
+theorem asciiB_ne {c a : Char} (hc : IsAscii c) (ha : IsAscii a) (h : c ≠ a) : asciiB c ≠ asciiB a :=
+  fun he => h (asciiB_inj hc ha he)
+
+/-- the first byte of a character's encoding tells an ASCII character -/
+theorem enc_head_ne (d a : Char) (ha : IsAscii a) (hd : d ≠ a) :
+    ∃ x xs, String.utf8EncodeChar d = x :: xs ∧ x ≠ asciiB a := by
+  by_cases hda : IsAscii d
+  · exact ⟨asciiB d, [], enc_ascii hda, asciiB_ne hda ha hd⟩
+  · have h128 := enc_nonascii hda
+    cases hc : String.utf8EncodeChar d with
+    | nil => exact absurd hc (by simp)
+    | cons x xs =>
+      refine ⟨x, xs, rfl, ?_⟩
+      rw [hc] at h128
+      have hx : (128 : UInt8) ≤ x := h128 x List.mem_cons_self
+      intro he
+      have hlt : asciiB a < 128 := by
+        have h1 : a.val.toNat ≤ 127 := UInt32.le_iff_toNat_le.1 ha
+        rw [UInt8.lt_iff_toNat_lt]
+        simp only [asciiB, UInt32.toNat_toUInt8]
+        have : a.val.toNat % 256 = a.val.toNat := Nat.mod_eq_of_lt (by omega)
+        rw [this]; exact Nat.lt_of_le_of_lt h1 (by decide)
+      rw [he] at hx
+      exact absurd (UInt8.lt_of_lt_of_le hlt hx) (UInt8.lt_irrefl _)
+
+/-- **the scanner on characters is the scanner on their UTF-8 bytes** -/
+theorem lcScan_enc : ∀ (n : Nat) (t : List Char), t.length ≤ n → ∀ s, lcScan s t = lcScanB s (encL t)
+  | _, [], _, s => by cases s <;> rfl
+  | 0, _ :: _, hn, _ => by simp at hn
+  | n + 1, c :: r, hn, s => by
+    have hlen : r.length ≤ n := by simpa using hn
+    have ih := lcScan_enc n r hlen
+    by_cases hca : IsAscii c
+    · rw [encL_cons, enc_ascii hca, List.singleton_append]
+      have q : ∀ (a : Char), IsAscii a → c ≠ a → asciiB c ≠ asciiB a := fun a ha h => asciiB_ne hca ha h
+      by_cases h1 : c = '"'
+      · subst h1
+        cases s with
+        | outside => rw [lcScan_outside_quote, show asciiB '"' = 34 from by decide, lcScanB_outside_quote]; exact ih _
+        | inString =>
+          rw [lcScan_inString, if_neg (by decide), if_pos rfl, show asciiB '"' = 34 from by decide, lcScanB_inString,
+            if_neg (by decide), if_pos rfl]; exact ih _
+        | inStringEscaped => rw [lcScan_inStringEscaped, lcScanB_inStringEscaped]; exact ih _
+        | lineComment =>
+          rw [lcScan_lineComment, if_neg (by decide), show asciiB '"' = 34 from by decide, lcScanB_lineComment,
+            if_neg (by decide)]; exact ih _
+        | blockComment =>
+          rw [lcScan_blockComment, if_neg (by decide), show asciiB '"' = 34 from by decide, lcScanB_blockComment,
+            if_neg (by decide)]; exact ih _
+        | blockCommentStar =>
+          rw [lcScan_blockCommentStar, if_neg (by decide), if_neg (by decide), show asciiB '"' = 34 from by decide,
+            lcScanB_blockCommentStar, if_neg (by decide), if_neg (by decide)]; exact ih _
+      by_cases h2 : c = '/'
+      · subst h2
+        rw [show asciiB '/' = 47 from by decide]
+        cases s with
+        | outside =>
+          cases r with
+          | nil => rw [lcScan_outside_slash_nil]; simp only [encL_nil]; rw [lcScanB_outside_slash_nil]
+          | cons d r' =>
+            have hlen' : r'.length ≤ n := by simp at hlen; omega
+            by_cases h3 : d = '/'
+            · subst h3
+              rw [lcScan_outside_slash_slash, encL_cons, enc_ascii (by decide), List.singleton_append,
+                show asciiB '/' = 47 from by decide, lcScanB_outside_slash_slash]
+              exact lcScan_enc n r' hlen' _
+            by_cases h4 : d = '*'
+            · subst h4
+              rw [lcScan_outside_slash_star, encL_cons, enc_ascii (by decide), List.singleton_append,
+                show asciiB '*' = 42 from by decide, lcScanB_outside_slash_star]
+              exact lcScan_enc n r' hlen' _
+            rw [lcScan_outside_slash_other _ _ h3 h4, ih]
+            obtain ⟨x, xs, hx, hx47⟩ := enc_head_ne d '/' (by decide) h3
+            obtain ⟨x', xs', hx', hx42⟩ := enc_head_ne d '*' (by decide) h4
+            rw [hx] at hx'
+            injection hx' with e1 e2
+            subst e1 e2
+            rw [encL_cons, hx, List.cons_append,
+              lcScanB_outside_slash_other _ _ (by rw [show (47 : UInt8) = asciiB '/' from by decide]; exact hx47)
+                (by rw [show (42 : UInt8) = asciiB '*' from by decide]; exact hx42)]
+        | inString => rw [lcScan_inString, if_neg (by decide), if_neg (by decide), lcScanB_inString, if_neg (by decide),
+            if_neg (by decide)]; exact ih _
+        | inStringEscaped => rw [lcScan_inStringEscaped, lcScanB_inStringEscaped]; exact ih _
+        | lineComment => rw [lcScan_lineComment, if_neg (by decide), lcScanB_lineComment, if_neg (by decide)]; exact ih _
+        | blockComment => rw [lcScan_blockComment, if_neg (by decide), lcScanB_blockComment, if_neg (by decide)]; exact ih _
+        | blockCommentStar => rw [lcScan_blockCommentStar, if_pos rfl, lcScanB_blockCommentStar, if_pos rfl]; exact ih _
+      by_cases h3 : c = '*'
+      · subst h3
+        rw [show asciiB '*' = 42 from by decide]
+        cases s with
+        | outside => rw [lcScan_outside_other _ _ (by decide) (by decide), lcScanB_outside_other _ _ (by decide) (by decide)]
+                     exact ih _
+        | inString => rw [lcScan_inString, if_neg (by decide), if_neg (by decide), lcScanB_inString, if_neg (by decide),
+            if_neg (by decide)]; exact ih _
+        | inStringEscaped => rw [lcScan_inStringEscaped, lcScanB_inStringEscaped]; exact ih _
+        | lineComment => rw [lcScan_lineComment, if_neg (by decide), lcScanB_lineComment, if_neg (by decide)]; exact ih _
+        | blockComment => rw [lcScan_blockComment, if_pos rfl, lcScanB_blockComment, if_pos rfl]; exact ih _
+        | blockCommentStar =>
+          rw [lcScan_blockCommentStar, if_neg (by decide), if_pos rfl, lcScanB_blockCommentStar, if_neg (by decide),
+            if_pos rfl]; exact ih _
+      by_cases h4 : c = '\\'
+      · subst h4
+        rw [show asciiB '\\' = 92 from by decide]
+        cases s with
+        | outside => rw [lcScan_outside_other _ _ (by decide) (by decide), lcScanB_outside_other _ _ (by decide) (by decide)]
+                     exact ih _
+        | inString => rw [lcScan_inString, if_pos rfl, lcScanB_inString, if_pos rfl]; exact ih _
+        | inStringEscaped => rw [lcScan_inStringEscaped, lcScanB_inStringEscaped]; exact ih _
+        | lineComment => rw [lcScan_lineComment, if_neg (by decide), lcScanB_lineComment, if_neg (by decide)]; exact ih _
+        | blockComment => rw [lcScan_blockComment, if_neg (by decide), lcScanB_blockComment, if_neg (by decide)]; exact ih _
+        | blockCommentStar =>
+          rw [lcScan_blockCommentStar, if_neg (by decide), if_neg (by decide), lcScanB_blockCommentStar,
+            if_neg (by decide), if_neg (by decide)]; exact ih _
+      by_cases h5 : c = '\n'
+      · subst h5
+        rw [show asciiB '\n' = 10 from by decide]
+        cases s with
+        | outside => rw [lcScan_outside_other _ _ (by decide) (by decide), lcScanB_outside_other _ _ (by decide) (by decide)]
+                     exact ih _
+        | inString => rw [lcScan_inString, if_neg (by decide), if_neg (by decide), lcScanB_inString, if_neg (by decide),
+            if_neg (by decide)]; exact ih _
+        | inStringEscaped => rw [lcScan_inStringEscaped, lcScanB_inStringEscaped]; exact ih _
+        | lineComment => rw [lcScan_lineComment, if_pos rfl, lcScanB_lineComment, if_pos rfl]; exact ih _
+        | blockComment => rw [lcScan_blockComment, if_neg (by decide), lcScanB_blockComment, if_neg (by decide)]; exact ih _
+        | blockCommentStar =>
+          rw [lcScan_blockCommentStar, if_neg (by decide), if_neg (by decide), lcScanB_blockCommentStar,
+            if_neg (by decide), if_neg (by decide)]; exact ih _
+      · rw [lcScan_other s c r h1 h2 h3 h4 h5, lcScanB_other s (asciiB c) _
+          (by rw [show (34 : UInt8) = asciiB '"' from by decide]; exact q _ (by decide) h1)
+          (by rw [show (47 : UInt8) = asciiB '/' from by decide]; exact q _ (by decide) h2)
+          (by rw [show (42 : UInt8) = asciiB '*' from by decide]; exact q _ (by decide) h3)
+          (by rw [show (92 : UInt8) = asciiB '\\' from by decide]; exact q _ (by decide) h4)
+          (by rw [show (10 : UInt8) = asciiB '\n' from by decide]; exact q _ (by decide) h5)]
+        exact ih _
+    · have ne : ∀ (a : Char), IsAscii a → c ≠ a := fun a ha h => hca (h ▸ ha)
+      rw [lcScan_other s c r (ne _ (by decide)) (ne _ (by decide)) (ne _ (by decide)) (ne _ (by decide)) (ne _ (by decide)),
+        encL_cons, lcScanB_high s _ _ (by
+          intro h0
+          have := congrArg List.length h0
+          simp [String.length_utf8EncodeChar] at this
+          have := Char.utf8Size_pos c
+          omega) (enc_nonascii hca)]
+      exact ih _
+
+/-! ### one segment -/
+
+theorem lcScanB_ws (r : List UInt8) : ∀ (l : List UInt8), (∀ c ∈ l, isWs c = true) →
+    lcScanB .outside (l ++ r) = lcScanB .outside r
+  | [], _ => rfl
+  | c :: l, h => by
+    have hc := h c List.mem_cons_self
+    rw [List.cons_append, lcScanB_outside_other c _ (by intro e; subst e; exact absurd hc (by decide))
+      (by intro e; subst e; exact absurd hc (by decide))]
+    exact lcScanB_ws r l (fun d hd => h d (List.mem_cons_of_mem _ hd))
+
+theorem lcScanB_plain (r : List UInt8) : ∀ (l : List UInt8), (∀ c ∈ l, c ≠ 34 ∧ c ≠ 47) →
+    lcScanB .outside (l ++ r) = lcScanB .outside r
+  | [], _ => rfl
+  | c :: l, h => by
+    rw [List.cons_append, lcScanB_outside_other c _ (h c List.mem_cons_self).1 (h c List.mem_cons_self).2]
+    exact lcScanB_plain r l (fun d hd => h d (List.mem_cons_of_mem _ hd))
+
+theorem lcScanB_strBody (r : List UInt8) {body : List UInt8} (h : StrBody body) :
+    lcScanB .inString (body ++ r) = lcScanB .inString r := by
+  induction h with
+  | nil => rfl
+  | plain c rest hc _ ih => rw [List.cons_append, lcScanB_inString, if_neg hc.2.1, if_neg hc.1]; exact ih
+  | esc x rest _ _ ih =>
+    rw [List.cons_append, List.cons_append, lcScanB_inString, if_pos rfl, lcScanB_inStringEscaped]; exact ih
+
+theorem lcScanB_lineRest (r : List UInt8) : ∀ (l : List UInt8), (∀ c ∈ l, c ≠ 10) →
+    lcScanB .lineComment (l ++ r) = lcScanB .lineComment r
+  | [], _ => rfl
+  | c :: l, h => by
+    rw [List.cons_append, lcScanB_lineComment, if_neg (h c List.mem_cons_self)]
+    exact lcScanB_lineRest r l (fun d hd => h d (List.mem_cons_of_mem _ hd))
+
+/-- the state inside a block comment in front of byte `j` -/
+def blockSt (core : List UInt8) (j : Nat) : LcState :=
+  if 3 ≤ j ∧ core[j - 1]? = some 42 then .blockCommentStar else .blockComment
+
+/-- inside a block comment the scanner leaves it exactly at its end -/
+theorem lcScanB_blockTail {core : List UInt8} (h : BlockCore core) (r : List UInt8) : ∀ (d j : Nat),
+    j + d = core.length - 1 → 2 ≤ j → lcScanB (blockSt core j) (core.drop j ++ r) = lcScanB .outside r
+  | 0, j, hj, h2 => by
+    have hlen := h.len
+    have hj' : j = core.length - 1 := by omega
+    have hlt : j < core.length := by omega
+    have hx : core[j] = 47 := by
+      have := h.hend.2
+      rw [← hj', List.getElem?_eq_getElem hlt] at this
+      exact Option.some.inj this
+    have hst : blockSt core j = .blockCommentStar := by
+      unfold blockSt
+      rw [if_pos ⟨by omega, by rw [hj']; exact (by have := h.hend.1; rwa [show core.length - 1 - 1 = core.length - 2 from by omega])⟩]
+    rw [List.drop_eq_getElem_cons hlt, hx, hst, List.cons_append, lcScanB_blockCommentStar, if_pos rfl]
+    have : List.drop (j + 1) core = [] := List.drop_eq_nil_of_le (by omega)
+    rw [this]; rfl
+  | d + 1, j, hj, h2 => by
+    have hlen := h.len
+    have hlt : j < core.length := by omega
+    have ih := lcScanB_blockTail h r d (j + 1) (by omega) (by omega)
+    rw [List.drop_eq_getElem_cons hlt, List.cons_append]
+    have hget : core[j]? = some core[j] := List.getElem?_eq_getElem hlt
+    by_cases hs : 3 ≤ j ∧ core[j - 1]? = some 42
+    · have hst : blockSt core j = .blockCommentStar := by unfold blockSt; rw [if_pos hs]
+      have hne : core[j] ≠ 47 := by
+        intro he
+        exact h.hfirst j hs.1 (by omega) ⟨hs.2, by rw [hget, he]⟩
+      rw [hst, lcScanB_blockCommentStar, if_neg hne]
+      by_cases hx : core[j] = 42
+      · rw [if_pos hx]
+        have : blockSt core (j + 1) = .blockCommentStar := by
+          unfold blockSt; rw [if_pos ⟨by omega, by simp only [Nat.add_sub_cancel]; rw [hget, hx]⟩]
+        rw [← this]; exact ih
+      · rw [if_neg hx]
+        have : blockSt core (j + 1) = .blockComment := by
+          unfold blockSt
+          rw [if_neg (by
+            rintro ⟨-, h'⟩
+            simp only [Nat.add_sub_cancel] at h'
+            rw [hget] at h'
+            exact hx (Option.some.inj h'))]
+        rw [← this]; exact ih
+    · have hst : blockSt core j = .blockComment := by unfold blockSt; rw [if_neg hs]
+      rw [hst, lcScanB_blockComment]
+      by_cases hx : core[j] = 42
+      · rw [if_pos hx]
+        have : blockSt core (j + 1) = .blockCommentStar := by
+          unfold blockSt; rw [if_pos ⟨by omega, by simp only [Nat.add_sub_cancel]; rw [hget, hx]⟩]
+        rw [← this]; exact ih
+      · rw [if_neg hx]
+        have : blockSt core (j + 1) = .blockComment := by
+          unfold blockSt
+          rw [if_neg (by
+            rintro ⟨-, h'⟩
+            simp only [Nat.add_sub_cancel] at h'
+            rw [hget] at h'
+            exact hx (Option.some.inj h'))]
+        rw [← this]; exact ih
+
+theorem lcScanB_blockCore {core : List UInt8} (h : BlockCore core) (r : List UInt8) :
+    lcScanB .outside (core ++ r) = lcScanB .outside r := by
+  have hlen := h.len
+  have e0 : core[0] = 47 := by
+    have := h.h0; rw [List.getElem?_eq_getElem (by omega)] at this; exact Option.some.inj this
+  have e1 : core[1] = 42 := by
+    have := h.h1; rw [List.getElem?_eq_getElem (by omega)] at this; exact Option.some.inj this
+  have hd : core = 47 :: 42 :: core.drop 2 := by
+    conv => lhs; rw [← List.drop_zero (l := core)]
+    rw [List.drop_eq_getElem_cons (by omega : 0 < core.length), List.drop_eq_getElem_cons (by omega : 0 + 1 < core.length),
+      e0, e1]
+  have := lcScanB_blockTail h r (core.length - 1 - 2) 2 (by omega) (Nat.le_refl 2)
+  have hst : blockSt core 2 = .blockComment := by unfold blockSt; rw [if_neg (by omega)]
+  rw [hst] at this
+  conv => lhs; rw [hd]
+  rw [List.cons_append, List.cons_append, lcScanB_outside_slash_star]
+  exact this
+
+def _root_.A2l.Lex.Seg.isLine (sg : Seg) : Bool :=
+  match sg.kind with
+  | .line => true
+  | _ => false
+
+/-- **one segment**: behind a well-formed segment the scanner is outside of strings and comments, or — behind a line
+    comment — inside that comment -/
+theorem seg_scan {pl : Option UInt8} {pt : Option TokType} {sg : Seg} {next : Option UInt8} (h : sg.ok pl pt next)
+    (r : List UInt8) :
+    lcScanB .outside (sg.bytes ++ r) = lcScanB (if sg.isLine then .lineComment else .outside) r := by
+  obtain ⟨hws, hne, hk⟩ := h
+  unfold Seg.bytes
+  rw [List.append_assoc, lcScanB_ws _ _ hws, List.append_assoc,
+    lcScanB_ws _ _ (fun c hc => by rw [List.eq_of_mem_replicate hc]; decide)]
+  unfold Seg.isLine
+  cases hkind : sg.kind with
+  | ident =>
+    rw [hkind] at hk
+    exact lcScanB_plain r _ (fun c hc =>
+      ⟨by intro e; subst e; exact absurd (hk.2.2.1 _ hc) (by decide), by intro e; subst e; exact absurd (hk.2.2.1 _ hc) (by decide)⟩)
+  | kbegin =>
+    rw [hkind] at hk
+    rw [hk.2.2, show (47 :: kwBegin) ++ r = 47 :: 98 :: ([101, 103, 105, 110] ++ r) from rfl,
+      lcScanB_outside_slash_other _ _ (by decide) (by decide)]
+    exact lcScanB_plain r [98, 101, 103, 105, 110] (by decide)
+  | kend =>
+    rw [hkind] at hk
+    rw [hk.2.2, show (47 :: kwEnd) ++ r = 47 :: 101 :: ([110, 100] ++ r) from rfl,
+      lcScanB_outside_slash_other _ _ (by decide) (by decide)]
+    exact lcScanB_plain r [101, 110, 100] (by decide)
+  | str body =>
+    rw [hkind] at hk
+    rw [hk.2.2.2.1, List.cons_append, lcScanB_outside_quote, List.append_assoc, lcScanB_strBody _ hk.2.2.1,
+      List.singleton_append, lcScanB_inString, if_neg (by decide), if_pos rfl]
+    rfl
+  | num =>
+    rw [hkind] at hk
+    obtain ⟨c0, rest, hcore, -, hc0, hrest⟩ := hk.2.2.1
+    rw [hcore]
+    refine lcScanB_plain r _ (fun c hc => ?_)
+    rcases List.mem_cons.1 hc with rfl | hc
+    · exact ⟨by intro e; subst e; exact absurd hc0 (by decide), by intro e; subst e; exact absurd hc0 (by decide)⟩
+    · exact ⟨by intro e; subst e; exact absurd (hrest _ hc) (by decide), by intro e; subst e; exact absurd (hrest _ hc) (by decide)⟩
+  | block =>
+    rw [hkind] at hk
+    exact lcScanB_blockCore hk.1 r
+  | line =>
+    rw [hkind] at hk
+    obtain ⟨rest, hcore, hrest⟩ := hk.1
+    rw [hcore, List.cons_append, List.cons_append, lcScanB_outside_slash_slash]
+    exact lcScanB_lineRest r rest hrest
+
+theorem seg_bytes_ne {pl : Option UInt8} {pt : Option TokType} {sg : Seg} {next : Option UInt8} (h : sg.ok pl pt next) :
+    sg.bytes ≠ [] := by
+  unfold Seg.bytes
+  intro h0
+  have := (List.append_eq_nil_iff.1 (List.append_eq_nil_iff.1 h0).2).2
+  exact h.2.1 this
+
+/-- **a well-formed segment list**: behind it the scanner is inside a `//` comment iff the last segment is one -/
+theorem segs_scan : ∀ (sgs : List Seg) (pl : Option UInt8) (pt : Option TokType), segsOk pl pt sgs →
+    lcScanB .outside (segsBytes sgs) =
+      (match sgs.getLast? with
+        | some sg => if sg.isLine then .lineComment else .outside
+        | none => .outside)
+  | [], _, _, _ => rfl
+  | [sg], pl, pt, h => by
+    have := seg_scan h.1 []
+    simpa [segsBytes, lcScanB_nil] using this
+  | sg :: sg' :: rest, pl, pt, h => by
+    have ih := segs_scan (sg' :: rest) _ _ h.2
+    rw [List.getLast?_cons_cons, ← ih]
+    show lcScanB .outside (sg.bytes ++ segsBytes (sg' :: rest)) = _
+    rw [seg_scan h.1]
+    cases hl : sg.isLine with
+    | false => rfl
+    | true =>
+      simp only [if_true]
+      -- the next segment starts with a line break
+      have hk := h.1.2.2
+      unfold Seg.isLine at hl
+      cases hkind : sg.kind with
+      | line =>
+        rw [hkind] at hk
+        have hnext := hk.2.2.2
+        have hne : segsBytes (sg' :: rest) ≠ [] := by
+          show sg'.bytes ++ segsBytes rest ≠ []
+          intro h0
+          exact seg_bytes_ne h.2.1 (List.append_eq_nil_iff.1 h0).1
+        cases hb : segsBytes (sg' :: rest) with
+        | nil => exact absurd hb hne
+        | cons c tl =>
+          rw [hb] at hnext
+          simp only [List.head?_cons] at hnext
+          subst hnext
+          rw [lcScanB_lineComment, if_pos rfl, lcScanB_outside_other _ _ (by decide) (by decide)]
+      | ident => rw [hkind] at hl; cases hl
+      | kbegin => rw [hkind] at hl; cases hl
+      | kend => rw [hkind] at hl; cases hl
+      | str b => rw [hkind] at hl; cases hl
+      | num => rw [hkind] at hl; cases hl
+      | block => rw [hkind] at hl; cases hl
+
+/-- is this token a `//` comment? -/
+def WTok.isLC (w : WTok) : Bool := w.ty == 6 && isLineCmt w.text
+
+theorem toSeg_isLine (w : WTok) : (toSeg w).isLine = w.isLC := by
+  unfold toSeg Seg.isLine WTok.isLC
+  by_cases h6 : w.ty = 6
+  · simp only [h6, if_true, beq_self_eq_true, Bool.true_and]
+    cases isLineCmt w.text <;> rfl
+  · simp only [h6, if_false]
+    have : (w.ty == 6) = false := by simpa using h6
+    rw [this, Bool.false_and]
+    generalize w.ty = n at h6
+    match n, h6 with
+    | 0, _ => rfl
+    | 1, _ => rfl
+    | 2, _ => rfl
+    | 3, _ => rfl
+    | 4, _ => rfl
+    | 5, _ => rfl
+    | 6, h => exact absurd rfl h
+    | n + 7, _ => rfl
+
+/-- **the scanner of `ends_in_line_comment` on the text of a lexable stream**: behind the text it is inside a `//`
+    comment if the last token is one, and outside of strings and comments otherwise -/
+theorem scan_stream (ws : List WTok) (prev : Option WTok) (h : StreamLex prev ws) :
+    lcScan .outside (renderToks ws) =
+      (match ws.getLast? with
+        | some w => if w.isLC then .lineComment else .outside
+        | none => .outside) := by
+  have hs := segsOk_of_streamLex ws prev none none h (fun h0 => by cases h0) (fun _ _ _ _ _ h0 => by cases h0)
+  rw [lcScan_enc _ _ (Nat.le_refl _), ← segsBytes_map, segs_scan _ _ _ hs, List.getLast?_map]
+  cases ws.getLast? with
+  | none => rfl
+  | some w => simp only [Option.map_some, toSeg_isLine]
+
+/-- `ends_in_line_comment` of the text of a lexable stream: is the last token a `//` comment? -/
+theorem endsInLineComment_stream (ws : List WTok) (prev : Option WTok) (h : StreamLex prev ws) :
+    endsInLineComment (renderToks ws) = (match ws.getLast? with | some w => w.isLC | none => false) := by
+  unfold endsInLineComment
+  rw [scan_stream ws prev h]
+  cases ws.getLast? with
+  | none => rfl
+  | some w => simp only []; cases w.isLC <;> rfl
+
 /-! ## from tokenizer tokens to parser tokens -/
 
 /-- decode UTF-8 bytes (`String::from_utf8`; not-UTF-8 cannot occur for spans of a text that was a `String`) -/
